@@ -3,7 +3,7 @@ From Coq Require Import Permutation Sorted.
 From ZV.Common Require Import Base.
 From ZV.C10 Require Import Model Spec ProofsPow2 ProofsRing ProofsHist ProofsVec ProofsValVec ProofsFixed.
 From ZV.Gen Require Import ConstsC10.
-From ZV.C10 Require Import ModelValVec32 ProofsValVec32 ModelArena ProofsArena ModelStrVec ProofsStrVec ModelFixedLen ProofsFixedLen ModelFastVecCopy ProofsFastVecCopy ModelCases.
+From ZV.C10 Require Import ModelValVec32 ProofsValVec32 ModelArena ProofsArena ModelStrVec ProofsStrVec ModelFixedLen ProofsFixedLen ModelFastVecCopy ProofsFastVecCopy ModelCacheVec ProofsCacheVec ModelCases.
 Open Scope N_scope.
 
 (* ensure_power_of_two (bit smearing) returns a power of two that is large enough, for every request up to 2^62 *)
@@ -693,3 +693,92 @@ Check fastvec_copy_from_refuted :
   match fvc_step N 8 k_copy k_fill v12 (CCopyFrom [9]) with Ok (v, _) => vlen v = 1 /\ vbuf v 0 = Some 9 /\ vbuf v 1 = None | UB => False end /\
   match fvc_step N 8 k_copy k_fill v12 (CCopyFrom []) with Ok (v, _) => vlen v = 0 /\ vbuf v 0 = None | UB => False end.
 Print Assumptions fastvec_copy_from_refuted.
+
+(* ===== extension 3: memory::cache::CacheAlignedVec and BumpVec (ModelCacheVec.v) ===== *)
+
+(* memory::cache::CacheAlignedVec::reallocate: for every element size and every request of at most 2^62 bytes the
+   capacity recorded after `(n * size + 63) & !63` / size covers the request and wastes less than one cache line *)
+Theorem cachevec_capacity_aligned :
+  forall sz n, 0 < sz -> n * sz <= 2 ^ 62 ->
+  exists a, cav_aligned_capacity sz n = Some a /\ n <= a /\ a * sz <= n * sz + 63.
+Proof. exact ProofsCacheVec.cav_aligned_ok. Qed.
+Check cachevec_capacity_aligned :
+  forall sz n, 0 < sz -> n * sz <= 2 ^ 62 ->
+  exists a, cav_aligned_capacity sz n = Some a /\ n <= a /\ a * sz <= n * sz + 63.
+Print Assumptions cachevec_capacity_aligned.
+
+(* cachevec_refines_list: for every element type and size, requested capacity and history of push/pop/get/clear/
+   truncate/reserve whose slots fit 2^60 bytes, the model of memory::cache::CacheAlignedVec never touches a slot
+   outside its block or an uninitialised one (no UB), nothing is refused, every operation returns what a Vec returns
+   (values, and the elements destroyed by clear/truncate in order), and the final state holds the Vec's sequence *)
+Theorem cachevec_refines_list :
+  forall (A : Type) sz c (ops : list (aop A)), 0 < sz -> (c + ahist_size A ops) * sz <= 2 ^ 60 ->
+  exists v0 v', cav_with_capacity A sz c = Ok (Some v0) /\ c <= acap v0 /\
+                cav_run A sz v0 ops = Ok (v', snd (avec_run A [] ops)) /\ AW A v' (fst (avec_run A [] ops)).
+Proof. exact ProofsCacheVec.cachevec_refines_list_proof. Qed.
+Check cachevec_refines_list :
+  forall (A : Type) sz c (ops : list (aop A)), 0 < sz -> (c + ahist_size A ops) * sz <= 2 ^ 60 ->
+  exists v0 v', cav_with_capacity A sz c = Ok (Some v0) /\ c <= acap v0 /\
+                cav_run A sz v0 ops = Ok (v', snd (avec_run A [] ops)) /\ AW A v' (fst (avec_run A [] ops)).
+Print Assumptions cachevec_refines_list.
+
+(* over a whole history followed by Drop the pushed elements are - as a multiset - exactly the elements handed back
+   by pop plus the elements destroyed by clear, truncate and Drop; no initialised slot is left in the freed block *)
+Theorem cachevec_exactly_once :
+  forall (A : Type) sz c (ops : list (aop A)), 0 < sz -> (c + ahist_size A ops) * sz <= 2 ^ 60 ->
+  exists v0 v' outs v'' d,
+    cav_with_capacity A sz c = Ok (Some v0) /\ cav_run A sz v0 ops = Ok (v', outs) /\
+    cav_drop A v' = Ok (v'', d) /\
+    Permutation (ahistory_in A ops) (ahistory_out A ops outs ++ d) /\
+    (forall j, abuf v'' j = None).
+Proof. exact ProofsCacheVec.cachevec_exactly_once_proof. Qed.
+Check cachevec_exactly_once :
+  forall (A : Type) sz c (ops : list (aop A)), 0 < sz -> (c + ahist_size A ops) * sz <= 2 ^ 60 ->
+  exists v0 v' outs v'' d,
+    cav_with_capacity A sz c = Ok (Some v0) /\ cav_run A sz v0 ops = Ok (v', outs) /\
+    cav_drop A v' = Ok (v'', d) /\
+    Permutation (ahistory_in A ops) (ahistory_out A ops outs ++ d) /\
+    (forall j, abuf v'' j = None).
+Print Assumptions cachevec_exactly_once.
+
+(* truncate(n) destroys exactly the elements from n on, in order, keeps the first n and the capacity *)
+Theorem cachevec_truncate_drops_tail :
+  forall (A : Type) v (l : list A) n, AW A v l ->
+  exists v', cav_truncate A v n = Ok (v', skipn (N.to_nat n) l) /\ AW A v' (firstn (N.to_nat n) l) /\ acap v' = acap v.
+Proof. exact ProofsCacheVec.AW_truncate. Qed.
+Check cachevec_truncate_drops_tail :
+  forall (A : Type) v (l : list A) n, AW A v l ->
+  exists v', cav_truncate A v n = Ok (v', skipn (N.to_nat n) l) /\ AW A v' (firstn (N.to_nat n) l) /\ acap v' = acap v.
+Print Assumptions cachevec_truncate_drops_tail.
+
+(* BumpVec: for every element type, capacity > 0 and history of push/pop/get the model never touches a slot outside
+   the block handed out by the allocator or an uninitialised one, a push is refused exactly when len = capacity (the
+   refused value is destroyed, nothing else changes), everything else is what a Vec returns; capacity never changes *)
+Theorem bumpvec_refines_bounded_vec :
+  forall (A : Type) c (ops : list (bop A)), 0 < c ->
+  exists v0 v', bv_new_in A c = Some v0 /\ bv_run A v0 ops = Ok (v', snd (bvec_run A c [] ops)) /\
+                AW A v' (fst (bvec_run A c [] ops)) /\ acap v' = c /\ nlen (fst (bvec_run A c [] ops)) <= c.
+Proof. exact ProofsCacheVec.bumpvec_refines_bounded_vec_proof. Qed.
+Check bumpvec_refines_bounded_vec :
+  forall (A : Type) c (ops : list (bop A)), 0 < c ->
+  exists v0 v', bv_new_in A c = Some v0 /\ bv_run A v0 ops = Ok (v', snd (bvec_run A c [] ops)) /\
+                AW A v' (fst (bvec_run A c [] ops)) /\ acap v' = c /\ nlen (fst (bvec_run A c [] ops)) <= c.
+Print Assumptions bumpvec_refines_bounded_vec.
+
+(* history + Drop of a BumpVec: pushed = popped + destroyed (refused values, Drop), nothing initialised stays behind *)
+Theorem bumpvec_exactly_once :
+  forall (A : Type) c (ops : list (bop A)), 0 < c ->
+  exists v0 v' outs v'' d,
+    bv_new_in A c = Some v0 /\ bv_run A v0 ops = Ok (v', outs) /\
+    bv_drop A v' = Ok (v'', d) /\
+    Permutation (bhistory_in A ops) (bhistory_out A ops outs ++ d) /\
+    (forall j, abuf v'' j = None).
+Proof. exact ProofsCacheVec.bumpvec_exactly_once_proof. Qed.
+Check bumpvec_exactly_once :
+  forall (A : Type) c (ops : list (bop A)), 0 < c ->
+  exists v0 v' outs v'' d,
+    bv_new_in A c = Some v0 /\ bv_run A v0 ops = Ok (v', outs) /\
+    bv_drop A v' = Ok (v'', d) /\
+    Permutation (bhistory_in A ops) (bhistory_out A ops outs ++ d) /\
+    (forall j, abuf v'' j = None).
+Print Assumptions bumpvec_exactly_once.
